@@ -140,8 +140,8 @@ def discharge(rep, run, name, goals, roots, config, fn, bounds_note, timeout_s=6
     rep.functions.add(fn); rep.configs.add(config)
     try:
         pr = smt.Problem(run.ctx)
-        lem = pr.auto_zero_lemmas(roots, timeout_s=lemma_timeout)
-        rec["zero_lemmas"] = [l for l in lem if l[1] == "unsat"].__len__()
+        lem = pr.auto_zero_lemmas(roots)
+        rec["zero_lemmas"] = len([l for l in lem if l[1] == "unsat"])
         # obligations recorded during execution (panic edges)
         for desc, cond, path in run.it.obligations:
             goals = list(goals) + [("no-panic: " + desc, cond)]
@@ -176,10 +176,25 @@ def discharge(rep, run, name, goals, roots, config, fn, bounds_note, timeout_s=6
     rep.add(**rec)
     return rec
 
-def run_tasks(tasks, jobs=None):
+def guarded(rep, name, config, fn, thunk):
+    """run a harness thunk; engine limitations become an inconclusive record instead of a crash"""
+    try:
+        return thunk()
+    except ir.Unsupported as e:
+        rep.add(harness=name, config=config, function=fn, status="inconclusive", why="unsupported IR: " + str(e), goals=[], wall_s=0)
+    except lsym.PanicReached as e:
+        rep.add(harness=name, config=config, function=fn, status="inconclusive", why="panic reached unconditionally: " + str(e), goals=[], wall_s=0)
+    except Exception as e:
+        rep.add(harness=name, config=config, function=fn, status="inconclusive", why="engine error: %s: %s" % (type(e).__name__, str(e)[:300]), goals=[], wall_s=0,
+                trace=traceback.format_exc()[-1500:])
+
+def run_tasks(tasks, rep=None, jobs=None):
     """run harness closures concurrently (symbolic execution is cheap; solver calls are sub-processes)"""
     from concurrent.futures import ThreadPoolExecutor
     jobs = jobs or int(os.environ.get("VERIF_HARNESS_JOBS", "6"))
+    def one(i_t):
+        i, t = i_t
+        if rep is None: return t()
+        return guarded(rep, "task#%d" % i, "?", "?", t)
     with ThreadPoolExecutor(max_workers=jobs) as ex:
-        futs = [ex.submit(t) for t in tasks]
-        for f in futs: f.result()
+        list(ex.map(one, enumerate(tasks)))
